@@ -129,6 +129,16 @@ def want(t, v):
     return ("i", v)
 
 
+def want_array(t, vs):
+    base = ALIAS.get(t, t)
+    wt = [want(t, v) for v in vs]
+    if base == "char":
+        return ("b", b"".join(x[1] for x in wt))
+    if base == "wchar":
+        return ("s", [x[1][0] for x in wt])
+    return ("L", wt)
+
+
 POOL = list(INTS) + list(FLT) + ["char", "wchar"] + sorted(ALIAS)
 
 
@@ -142,7 +152,7 @@ def gen_case(rng: random.Random, tier: str):
             if r < 0.6:
                 fields.append({"n": f"f{i}", "t": rng.choice(POOL), "k": "s"})
             elif r < 0.8:
-                fields.append({"n": f"f{i}", "t": rng.choice(POOL), "k": "a", "len": rng.randint(1, 3)})
+                fields.append({"n": f"f{i}", "t": rng.choice(POOL), "k": "a", "len": rng.randint(0, 3)})
             elif r < 0.9:
                 fields.append({"n": f"f{i}", "t": rng.choice(["uint8", "uint16", "int32", "uint64", "int24"]), "k": "e"})
             else:
@@ -304,13 +314,7 @@ def _step(op, worlds, stats, fail):
             stats.count("evaluations")
             if w["switched"]:
                 stats.key(t, w["prev"], e, None, "array")
-            wt = [want(t, v) for v in op["vs"]]
-            if wt[0][0] == "b":
-                exp = ("b", b"".join(x[1] for x in wt))
-            elif wt[0][0] == "s":
-                exp = ("s", [x[1][0] for x in wt])
-            else:
-                exp = ("L", wt)
+            exp = want_array(t, op["vs"])
             if plain(got) != exp:
                 fail("decode_array", f"{t}[{n}] endian {e} (before: {w['prev']}) bytes {b.hex()}: got {plain(got)} expected {exp}")
             d = at.dumps(got)
@@ -347,8 +351,7 @@ def _step(op, worlds, stats, fail):
                     g, x = ("i", int(getattr(obj, f["n"]).value)), ("i", v)
                 elif f["k"] == "a":
                     g = plain(getattr(obj, f["n"]))
-                    wt = [want(f["t"], y) for y in v]
-                    x = ("b", b"".join(y[1] for y in wt)) if wt[0][0] == "b" else (("s", [y[1][0] for y in wt]) if wt[0][0] == "s" else ("L", wt))
+                    x = want_array(f["t"], v)
                 else:
                     g = ("i", [int(getattr(obj, f["n"] + "x")), int(getattr(obj, f["n"] + "y"))])
                     x = ("i", v)
